@@ -83,6 +83,54 @@ def check_writer(ctx: Ctx, f):
     return out
 
 
+def _search_result_returned_untouched(ctx: Ctx, sv):
+    """Result.objective was computed by alns for the state it returns.  solve_vrptw hands that Result on as it is:
+    a state that is edited afterwards (routes re-ordered, rows permuted) is no longer the state that was scored."""
+    calls = [n for n in own_nodes(sv.node) if isinstance(n, ast.Call) and isinstance(n.func, ast.Name) and n.func.id == "alns"]
+    ctx.require(len(calls) == 1, "solve_vrptw does not call alns exactly once")
+    call = calls[0]
+    rets = [n for n in own_nodes(sv.node) if isinstance(n, ast.Return)]
+    direct = any(r.value is call for r in rets)
+    holder = None
+    for n in own_nodes(sv.node):
+        if isinstance(n, ast.Assign) and n.value is call and isinstance(n.targets[0], ast.Name):
+            holder = n.targets[0].id
+    if direct:
+        ctx.ob("C18-O4", "R5 PAIRING", sv, "the Result of the search is returned as alns built it (state and objective belong together)", True, "", node=call)
+        return
+    ctx.require(holder is not None, "the Result of alns is neither returned nor kept in a local")
+    alias = {holder}
+    changed = True
+    while changed:
+        changed = False
+        for n in own_nodes(sv.node):
+            if isinstance(n, ast.Assign) and isinstance(n.targets[0], ast.Name) and n.targets[0].id not in alias:
+                b_ = n.value
+                while isinstance(b_, (ast.Attribute, ast.Subscript)):
+                    b_ = b_.value
+                if isinstance(b_, ast.Name) and b_.id in alias:
+                    alias.add(n.targets[0].id)
+                    changed = True
+    edits = []
+    for n in own_nodes(sv.node):
+        tgts = n.targets if isinstance(n, ast.Assign) else ([n.target] if isinstance(n, ast.AugAssign) else [])
+        for t_ in tgts:
+            if isinstance(t_, (ast.Attribute, ast.Subscript)):
+                b_ = t_
+                while isinstance(b_, (ast.Attribute, ast.Subscript)):
+                    b_ = b_.value
+                if isinstance(b_, ast.Name) and b_.id in alias:
+                    edits.append(n)
+        if isinstance(n, ast.Call) and isinstance(n.func, ast.Attribute) and n.func.attr in ("append", "extend", "insert", "remove", "pop", "clear", "sort", "reverse", "add", "discard", "update"):
+            b_ = n.func.value
+            while isinstance(b_, (ast.Attribute, ast.Subscript)):
+                b_ = b_.value
+            if isinstance(b_, ast.Name) and b_.id in alias:
+                edits.append(n)
+    returned = all(isinstance(r.value, ast.Name) and r.value.id == holder for r in rets if r.value is not None and not (isinstance(r.value, ast.Call) and ast.unparse(r.value.func) == "Result"))
+    ctx.ob("C18-O4", "R5 PAIRING", sv, "the Result of the search is returned as alns built it (state and objective belong together)", returned and not edits, f"`{ast.unparse(edits[0])[:70]}` edits the state after it was scored: the reported objective is the score of the state before the edit" if edits else "the value returned is not the search result", node=edits[0] if edits else call)
+
+
 def run(ctx: Ctx):
     d = ctx.func("job_shop", "_dispatch")
     r = ctx.func("job_shop", "_rebuild_schedule")
@@ -228,7 +276,8 @@ def run(ctx: Ctx):
     kw = {k.arg: ast.unparse(k.value) for k in wcall.keywords}
     WEIGHTS = ("distance_weight", "vehicle_weight", "tw_penalty", "capacity_penalty", "sync_penalty")
     crossed = {w: kw.get(w) for w in WEIGHTS if kw.get(w) != w}
-    ctx.ob("C18-O4", "R7 EVALUATOR-EXCLUSIVE", sv, "alns receives vrp_objective with each of the caller's weights bound to the parameter of the same name", not crossed and "return alns(initial, objective, destroy_ops, repair_ops" in ast.unparse(sv.node).replace("\n", "").replace("        ", ""), f"{crossed}: a weight bound to another term's parameter scores that term with the wrong penalty, and the reported objective is not the documented sum for the caller's weights", node=wcall)
+    ctx.ob("C18-O4", "R7 EVALUATOR-EXCLUSIVE", sv, "alns receives vrp_objective with each of the caller's weights bound to the parameter of the same name", not crossed and "alns(initial, objective, destroy_ops, repair_ops" in ast.unparse(sv.node).replace("\n", "").replace("        ", ""), f"{crossed}: a weight bound to another term's parameter scores that term with the wrong penalty, and the reported objective is not the documented sum for the caller's weights", node=wcall)
+    ctx.step(_search_result_returned_untouched, sv)
     vo = ctx.func("vrp", "vrp_objective")
     tv = ast.unparse(vo.node)
     terms = ["distance_weight * state.total_distance()", "vehicle_weight * state.vehicles_used()", "tw_penalty * state.time_window_violation()", "capacity_penalty * state.capacity_violation()", "sync_penalty * state.sync_violation()", "unassigned_penalty * len(state.unassigned)"]
@@ -448,7 +497,28 @@ def _v_zero_duration_fast_path(tree):
     M.replace_stmt(g, lambda s: M.src_is(s, "end = start + duration"), M.stmts("if duration == 0:\n    schedule[j, op_idx] = (start, start)\n    next_op[j] += 1\n    continue\nend = start + duration"))
 
 
+def _hold_alns_result(tree, extra):
+    g = M.find_func(tree, "solve_vrptw")
+    for i, st in enumerate(g.body):
+        if isinstance(st, ast.Return) and isinstance(st.value, ast.Call) and M.src_is(st.value.func, "alns"):
+            keep = ast.Assign(targets=[ast.Name(id="result", ctx=ast.Store())], value=st.value)
+            g.body[i : i + 1] = [keep] + M.stmts(extra + "return result")
+            ast.fix_missing_locations(g)
+            return
+    raise M.Skip("return alns(..) not found")
+
+
+def _v_routes_reordered_after_search(tree):
+    _hold_alns_result(tree, "best = result.solution\norder = sorted(range(len(best.routes)), key=lambda v: not best.routes[v])\nbest.routes = [best.routes[v] for v in order]\n")
+
+
+def _t_result_held_in_a_local(tree):
+    _hold_alns_result(tree, "")
+
+
 VARIANTS = [
+    M.Variant("routes of the best state re-ordered after the search scored it (seed C18-O)", VR, _v_routes_reordered_after_search, "C18-O4"),
+    M.Variant("twin: the alns Result is kept in a local and returned unchanged", VR, _t_result_held_in_a_local, None),
     M.Variant("zero-duration fast path skips the clock updates (seed C18-A)", JS, _v_zero_duration_fast_path, "C18-O1"),
 
     M.Variant("compute_arrival_times answers a one-stop route without the waiting rule (seed C18-J)", VR, _v_single_stop_arrival_shortcut, "C18-O4"),
